@@ -1,10 +1,10 @@
 #!/bin/bash
-# runs every registered check at the given tier, one after another
+# runs every registered check at the given tier, one after another; extra arguments go to `gosym check`
 tier=${1:-quick}
+shift
 cd /verif
-rc=0
 for f in checks/C*.json; do
   id=$(basename $f .json)
-  out=$(./bin/gosym check $id --tier $tier 2>&1 | grep -E "^(OK|VIOLATION|KNOWN-FINDING|BROKEN|INCONCLUSIVE)" )
+  out=$(./bin/gosym check $id --tier $tier "$@" 2>&1 | grep -E "^(OK|VIOLATION|KNOWN-FINDING|BROKEN|INCONCLUSIVE|SPURIOUS|CONFORMANCE|REPLAY-ERROR|  engine:|  native:)" | cut -c1-400)
   echo "$id: $out"
 done
